@@ -30,6 +30,10 @@ struct GateInner {
   extra_suspensions: Cell<u32>,
   waker: RefCell<Option<Waker>>,
   label: String,
+  /// the label without the call counter ("load#7 https://x/a.ts" -> "https://x/a.ts load")
+  sort_key: String,
+  /// number of driver decisions taken before this gate was created
+  epoch: u64,
 }
 
 struct TaskSlot {
@@ -66,6 +70,7 @@ pub struct Sched {
   pub max_outstanding: Cell<usize>,
   /// when set, the driver may make a released future suspend once more
   pub allow_suspensions: Cell<bool>,
+  epoch: Cell<u64>,
 }
 
 impl Sched {
@@ -77,6 +82,7 @@ impl Sched {
       events: Default::default(),
       max_outstanding: Cell::new(0),
       allow_suspensions: Cell::new(false),
+      epoch: Cell::new(0),
     })
   }
 
@@ -93,7 +99,12 @@ impl Sched {
       released: Cell::new(false),
       extra_suspensions: Cell::new(0),
       waker: RefCell::new(None),
+      sort_key: match label.split_once(' ') {
+        Some((kind, rest)) => format!("{rest} {}", kind.split('#').next().unwrap_or(kind)),
+        None => label.clone(),
+      },
       label,
+      epoch: self.epoch.get(),
     });
     self.gates.borrow_mut().push(inner.clone());
     Box::pin(GateFut {
@@ -102,15 +113,21 @@ impl Sched {
     })
   }
 
+  /// Outstanding operations in canonical order: by creation, except that
+  /// operations issued within one poll of the build future (between two
+  /// driver decisions) are ordered by label. The subject issues some batches
+  /// in hash-map iteration order (the cache-only probes of candidate versions),
+  /// which must not decide what a choice index means.
   fn outstanding_gates(&self) -> Vec<usize> {
-    self
-      .gates
-      .borrow()
+    let gates = self.gates.borrow();
+    let mut v: Vec<usize> = gates
       .iter()
       .enumerate()
       .filter(|(_, g)| !g.released.get())
       .map(|(i, _)| i)
-      .collect()
+      .collect();
+    v.sort_by(|a, b| (gates[*a].epoch, &gates[*a].sort_key, *a).cmp(&(gates[*b].epoch, &gates[*b].sort_key, *b)));
+    v
   }
 
   fn runnable_tasks(&self) -> Vec<usize> {
@@ -209,6 +226,7 @@ pub fn drive<T>(
     }
     let gates = sched.outstanding_gates();
     let tasks = sched.runnable_tasks();
+    sched.epoch.set(sched.epoch.get() + 1);
     sched
       .max_outstanding
       .set(sched.max_outstanding.get().max(gates.len() + tasks.len()));
